@@ -19,6 +19,8 @@ structure Interp (α : Type) where
   reduce : String → List Nat → Tensor α → Tensor α
   boolT : Bool → Tensor α
   junk : Tensor α
+  /-- run-time value of each symbolic dimension name -/
+  sym : String → Nat
 
 variable {α : Type}
 
@@ -42,9 +44,20 @@ def eval (I : Interp α) (ρ : Nat → Tensor α) : Term → List (Tensor α)
   | .nil => []
   | .cons t ts => eval I ρ t ++ eval I ρ ts
 
+/-- a dimension token is true of an extent -/
+def dimOK (I : Interp α) (d : Dim) (n : Nat) : Prop :=
+  match d with
+  | .known m => n = m
+  | .sym s => n = I.sym s
+  | .unk => True
+
+/-- a shape annotation is true of a tensor: rank and every known / symbolic extent -/
+def shapeOK (I : Interp α) (sh : List Dim) (t : Tensor α) : Prop :=
+  t.rank = sh.length ∧ ∀ k (h : k < sh.length), dimOK I sh[k] (t.dim k)
+
 /-- the annotation says nothing false about the tensor -/
-def annOK (a : Ann) (t : Tensor α) : Prop :=
-  (∀ d, a.dtype = some d → t.dtype = d) ∧ (∀ sh, a.shape = some sh → t.rank = sh.length)
+def annOK (I : Interp α) (a : Ann) (t : Tensor α) : Prop :=
+  (∀ d, a.dtype = some d → t.dtype = d) ∧ (∀ sh, a.shape = some sh → shapeOK I sh t)
 
 /-- structural well-formedness: argument positions hold chains of proper terms -/
 def wf : Term → Bool
@@ -59,9 +72,9 @@ def wf : Term → Bool
     occurring in the term is true of the tensor the sub-term evaluates to, and every leaf flagged
     as a size-1 constant is one. -/
 def AnnotSound (I : Interp α) (ρ : Nat → Tensor α) : Term → Prop
-  | .leaf id ann s => annOK ann (ρ id) ∧ (s = true → (ρ id).ScalarLike)
+  | .leaf id ann s => annOK I ann (ρ id) ∧ (s = true → (ρ id).ScalarLike)
   | .boolc _ => True
-  | .app h ann args => AnnotSound I ρ args ∧ annOK ann (applyHead I h (eval I ρ args))
+  | .app h ann args => AnnotSound I ρ args ∧ annOK I ann (applyHead I h (eval I ρ args))
   | .nil => True
   | .cons t ts => AnnotSound I ρ t ∧ AnnotSound I ρ ts
 
@@ -78,6 +91,15 @@ structure Laws (I : Interp α) (WT : Tensor α → Prop) : Prop where
   /-- definition of ONNX `Swish` (alpha = 1) on scalars: `x * Sigmoid(x)`, either operand order -/
   swish : ∀ v, I.fn "Mul" "" [v, I.fn "Sigmoid" "" [v]] = I.fn "Swish" "" [v]
   swish' : ∀ v, I.fn "Mul" "" [I.fn "Sigmoid" "" [v], v] = I.fn "Swish" "" [v]
+  /-- Reshape facts (ONNX semantics, assumed): a reshape of a reshape is the outer reshape; a
+      reshape that does not change rank and extents is the identity; reshapes commute with unary
+      pointwise operators and casts. -/
+  reshape_reshape : ∀ (x s1 s2 : Tensor α), I.reshape (I.reshape x s1) s2 = I.reshape x s2
+  reshape_same : ∀ (x s : Tensor α), (I.reshape x s).rank = x.rank →
+    (∀ k, k < x.rank → (I.reshape x s).dim k = x.dim k) → I.reshape x s = x
+  reshape_pw : ∀ (f : List α → α) (x s : Tensor α), pw f [I.reshape x s] = I.reshape (pw f [x]) s
+  reshape_cast : ∀ to (x s : Tensor α),
+    castT I.castS to (I.reshape x s) = I.reshape (castT I.castS to x) s
   /-- a keepdims reduction over axes commutes with a transpose when the axes are mapped through it
       (assumed ONNX fact; float re-association inside one reduction is not modelled) -/
   reduce_transpose : ∀ nm axes p (t : Tensor α), validPerm p = true → t.rank = p.length →
